@@ -46,7 +46,11 @@ type c17Taker struct {
 	At  int  `json:"at"`            // arrival offset, in 100 ms units
 	Lat int  `json:"lat"`           // fetch latency = Lat*100 ms + 20 ms
 	Err bool `json:"err,omitempty"` // fetch fails
+	Pan bool `json:"pan,omitempty"` // fetch panics (recovered by the calling goroutine of the harness)
 }
+
+// c17Panic is the value a panicking fetch panics with.
+type c17Panic struct{ id int }
 
 type c17Op struct {
 	K   string     `json:"k"`             // set setx get del adv take
@@ -100,10 +104,12 @@ type c17Model struct {
 	order   []string // front (index 0) = most recently set/read/taken
 	last    int      // tick of the last reconciliation
 	classes map[string]bool
+	// panicked: keys for which a fetch has panicked (classification only)
+	panicked map[string]bool
 }
 
 func c17NewModel(limit int, classes map[string]bool) *c17Model {
-	return &c17Model{limit: limit, ents: map[string]*c17Ent{}, classes: classes}
+	return &c17Model{limit: limit, ents: map[string]*c17Ent{}, classes: classes, panicked: map[string]bool{}}
 }
 
 func (m *c17Model) unlink(k string) {
@@ -220,6 +226,8 @@ type c17Ev struct {
 	who  int
 	val  any
 	err  error
+	pan  bool // the call of Take panicked
+	pval any  // with this value
 	snap map[string]any
 }
 
@@ -233,6 +241,11 @@ func c17Lat(tk c17Taker) time.Duration {
 // key is in flight it waits for it and gets its result; otherwise exactly one
 // of the callers arriving at that instant runs its fetch. The result of a
 // successful fetch is cached (with the cache's expiry), a failed one is not.
+// A fetch that panics: the statement is silent about what the executing caller
+// and the callers waiting for it receive (UNSPECIFIED, not compared); required
+// are only that all of them return when the execution ends, that nothing is
+// cached, and that the execution is over: a later caller of the key is judged
+// by the normal rules (it must run a fetch of its own).
 func c17CheckGroup(m *c17Model, op c17Op, vals []int, errs []error, log []c17Ev, expMs int, what string) string {
 	type flight struct {
 		leader  int
@@ -280,6 +293,11 @@ func c17CheckGroup(m *c17Model, op c17Op, vals []int, errs []error, log []c17Ev,
 			key = k
 		}
 		fl := flights[key]
+		for _, r := range ret {
+			if _, own := r.pval.(c17Panic); r.pan && !own {
+				return fmt.Sprintf("%s: Take of caller %d panicked with %v", w, r.who, r.pval)
+			}
+		}
 		switch {
 		case len(peeks) > 0:
 			if len(peeks) != len(batch) {
@@ -304,9 +322,34 @@ func c17CheckGroup(m *c17Model, op c17Op, vals []int, errs []error, log []c17Ev,
 				return w + ": harness: fetch completion at unexpected instant"
 			}
 			tk := op.T[fl.leader]
+			if tk.Pan {
+				for _, r := range ret {
+					if !fl.waiters[r.who] {
+						return fmt.Sprintf("%s: caller %d returned with an execution it was not waiting for", w, r.who)
+					}
+					if r.pan && r.pval != any(c17Panic{vals[fl.leader]}) {
+						return fmt.Sprintf("%s: caller %d panicked with %v, the fetch of caller %d panicked with %v", w, r.who, r.pval, fl.leader, c17Panic{vals[fl.leader]})
+					}
+					returned[r.who] = true
+					delete(fl.waiters, r.who)
+				}
+				if len(fl.waiters) > 0 {
+					return fmt.Sprintf("%s: callers %v did not return when the shared fetch ended with a panic", w, c17Keys(fl.waiters))
+				}
+				m.classes["take-fetch-panic"] = true
+				if len(ret) > 1 {
+					m.classes["take-fetch-panic-with-waiters"] = true
+				}
+				m.panicked[key] = true
+				delete(flights, key) // nothing is cached: the model is unchanged, the next snapshot checks it
+				continue
+			}
 			for _, r := range ret {
 				if !fl.waiters[r.who] {
 					return fmt.Sprintf("%s: caller %d returned with an execution it was not waiting for", w, r.who)
+				}
+				if r.pan {
+					return fmt.Sprintf("%s: Take of caller %d panicked with %v although the shared fetch (caller %d) did not", w, r.who, r.pval, fl.leader)
 				}
 				if tk.Err {
 					if r.err != errs[fl.leader] || r.val != nil {
@@ -362,7 +405,7 @@ func c17CheckGroup(m *c17Model, op c17Op, vals []int, errs []error, log []c17Ev,
 					if !arrived[r.who] || returned[r.who] {
 						return fmt.Sprintf("%s: caller %d returned out of turn", w, r.who)
 					}
-					if r.err != nil || r.val != any(ent.val) {
+					if r.pan || r.err != nil || r.val != any(ent.val) {
 						return fmt.Sprintf("%s: caller %d got (%v,%v), cached value is %d", w, r.who, r.val, r.err, ent.val)
 					}
 					got[r.who] = true
@@ -394,6 +437,9 @@ func c17CheckGroup(m *c17Model, op c17Op, vals []int, errs []error, log []c17Ev,
 				flights[key] = fl
 				for _, a := range arr {
 					fl.waiters[a.who] = true
+				}
+				if m.panicked[key] {
+					m.classes["take-fetch-after-panic"] = true
 				}
 				if execs[key]++; execs[key] >= 2 {
 					m.classes["take-two-executions"] = true
@@ -658,16 +704,24 @@ func c17Run(c c17Case, classes map[string]bool) string {
 						time.Sleep(d)
 					}
 					rec(c17Ev{kind: c17EvArrive, who: j})
-					v, err := cache.Take(c17Key(tk.Key), func() (any, error) {
-						rec(c17Ev{kind: c17EvFetchStart, who: j})
-						time.Sleep(c17Lat(tk))
-						rec(c17Ev{kind: c17EvFetchEnd, who: j})
-						if tk.Err {
-							return nil, errs[j]
-						}
-						return vals[j], nil
-					})
-					rec(c17Ev{kind: c17EvReturn, who: j, val: v, err: err})
+					ev := c17Ev{kind: c17EvReturn, who: j, pan: true}
+					func() {
+						defer func() { ev.pval = recover() }()
+						ev.val, ev.err = cache.Take(c17Key(tk.Key), func() (any, error) {
+							rec(c17Ev{kind: c17EvFetchStart, who: j})
+							time.Sleep(c17Lat(tk))
+							rec(c17Ev{kind: c17EvFetchEnd, who: j})
+							if tk.Pan {
+								panic(c17Panic{vals[j]})
+							}
+							if tk.Err {
+								return nil, errs[j]
+							}
+							return vals[j], nil
+						})
+						ev.pan = false
+					}()
+					rec(ev)
 					if atomic.AddInt32(&remaining, -1) == 0 {
 						close(doneCh)
 					}
@@ -858,8 +912,13 @@ func c17GenRawOp(nk int) *rapid.Generator[c17RawOp] {
 					Key: tkey,
 					At:  rapid.SampledFrom([]int{0, 0, 0, 1, 2, 5, 9, 10, 11, 20, 30}).Draw(rt, "at"),
 					Lat: rapid.SampledFrom([]int{0, 1, 3, 5, 10, 12, 25}).Draw(rt, "lat"),
-					Err: rapid.IntRange(0, 3).Draw(rt, "err") == 0,
 				})
+				switch rapid.IntRange(0, 7).Draw(rt, "outcome") {
+				case 0, 1:
+					o.T[j].Err = true
+				case 2:
+					o.T[j].Pan = true
+				}
 			}
 			o.T = c17NormTakers(o.T)
 		}
